@@ -511,41 +511,46 @@ func (s Subtitles) WriteToWebVTT(o io.Writer) (err error) {
 
 	sort.Strings(k)
 	for _, id := range k {
-		c = append(c, []byte("Region: id="+s.Regions[id].ID)...)
-		if s.Regions[id].InlineStyle.WebVTTLines != 0 {
-			c = append(c, bytesSpace...)
-			c = append(c, []byte("lines="+strconv.Itoa(s.Regions[id].InlineStyle.WebVTTLines))...)
-		} else if s.Regions[id].Style != nil && s.Regions[id].Style.InlineStyle != nil && s.Regions[id].Style.InlineStyle.WebVTTLines != 0 {
-			c = append(c, bytesSpace...)
-			c = append(c, []byte("lines="+strconv.Itoa(s.Regions[id].Style.InlineStyle.WebVTTLines))...)
+		// Regions may have no inline style
+		var region = *s.Regions[id]
+		if region.InlineStyle == nil {
+			region.InlineStyle = &StyleAttributes{}
 		}
-		if s.Regions[id].InlineStyle.WebVTTRegionAnchor != "" {
+		c = append(c, []byte("Region: id="+region.ID)...)
+		if region.InlineStyle.WebVTTLines != 0 {
 			c = append(c, bytesSpace...)
-			c = append(c, []byte("regionanchor="+s.Regions[id].InlineStyle.WebVTTRegionAnchor)...)
-		} else if s.Regions[id].Style != nil && s.Regions[id].Style.InlineStyle != nil && s.Regions[id].Style.InlineStyle.WebVTTRegionAnchor != "" {
+			c = append(c, []byte("lines="+strconv.Itoa(region.InlineStyle.WebVTTLines))...)
+		} else if region.Style != nil && region.Style.InlineStyle != nil && region.Style.InlineStyle.WebVTTLines != 0 {
 			c = append(c, bytesSpace...)
-			c = append(c, []byte("regionanchor="+s.Regions[id].Style.InlineStyle.WebVTTRegionAnchor)...)
+			c = append(c, []byte("lines="+strconv.Itoa(region.Style.InlineStyle.WebVTTLines))...)
 		}
-		if s.Regions[id].InlineStyle.WebVTTScroll != "" {
+		if region.InlineStyle.WebVTTRegionAnchor != "" {
 			c = append(c, bytesSpace...)
-			c = append(c, []byte("scroll="+s.Regions[id].InlineStyle.WebVTTScroll)...)
-		} else if s.Regions[id].Style != nil && s.Regions[id].Style.InlineStyle != nil && s.Regions[id].Style.InlineStyle.WebVTTScroll != "" {
+			c = append(c, []byte("regionanchor="+region.InlineStyle.WebVTTRegionAnchor)...)
+		} else if region.Style != nil && region.Style.InlineStyle != nil && region.Style.InlineStyle.WebVTTRegionAnchor != "" {
 			c = append(c, bytesSpace...)
-			c = append(c, []byte("scroll="+s.Regions[id].Style.InlineStyle.WebVTTScroll)...)
+			c = append(c, []byte("regionanchor="+region.Style.InlineStyle.WebVTTRegionAnchor)...)
 		}
-		if s.Regions[id].InlineStyle.WebVTTViewportAnchor != "" {
+		if region.InlineStyle.WebVTTScroll != "" {
 			c = append(c, bytesSpace...)
-			c = append(c, []byte("viewportanchor="+s.Regions[id].InlineStyle.WebVTTViewportAnchor)...)
-		} else if s.Regions[id].Style != nil && s.Regions[id].Style.InlineStyle != nil && s.Regions[id].Style.InlineStyle.WebVTTViewportAnchor != "" {
+			c = append(c, []byte("scroll="+region.InlineStyle.WebVTTScroll)...)
+		} else if region.Style != nil && region.Style.InlineStyle != nil && region.Style.InlineStyle.WebVTTScroll != "" {
 			c = append(c, bytesSpace...)
-			c = append(c, []byte("viewportanchor="+s.Regions[id].Style.InlineStyle.WebVTTViewportAnchor)...)
+			c = append(c, []byte("scroll="+region.Style.InlineStyle.WebVTTScroll)...)
 		}
-		if s.Regions[id].InlineStyle.WebVTTWidth != "" {
+		if region.InlineStyle.WebVTTViewportAnchor != "" {
 			c = append(c, bytesSpace...)
-			c = append(c, []byte("width="+s.Regions[id].InlineStyle.WebVTTWidth)...)
-		} else if s.Regions[id].Style != nil && s.Regions[id].Style.InlineStyle != nil && s.Regions[id].Style.InlineStyle.WebVTTWidth != "" {
+			c = append(c, []byte("viewportanchor="+region.InlineStyle.WebVTTViewportAnchor)...)
+		} else if region.Style != nil && region.Style.InlineStyle != nil && region.Style.InlineStyle.WebVTTViewportAnchor != "" {
 			c = append(c, bytesSpace...)
-			c = append(c, []byte("width="+s.Regions[id].Style.InlineStyle.WebVTTWidth)...)
+			c = append(c, []byte("viewportanchor="+region.Style.InlineStyle.WebVTTViewportAnchor)...)
+		}
+		if region.InlineStyle.WebVTTWidth != "" {
+			c = append(c, bytesSpace...)
+			c = append(c, []byte("width="+region.InlineStyle.WebVTTWidth)...)
+		} else if region.Style != nil && region.Style.InlineStyle != nil && region.Style.InlineStyle.WebVTTWidth != "" {
+			c = append(c, bytesSpace...)
+			c = append(c, []byte("width="+region.Style.InlineStyle.WebVTTWidth)...)
 		}
 		c = append(c, bytesLineSeparator...)
 	}
